@@ -1,9 +1,196 @@
 import NmVerif.Proto
+import NmVerif.Arr
+import NmVerif.Index.Tile
+import NmVerif.Index.Repeat
+import NmVerif.Index.Roll
+import NmVerif.Index.Pad
+import NmVerif.Index.Take
+import NmVerif.Index.Concatenate
+import NmVerif.Index.Stack
+import NmVerif.Index.Resize
+import NmVerif.Index.Compress
+import NmVerif.Index.Expand
+import NmVerif.Index.Diagonal
+import NmVerif.Index.SlidingWindow
+import NmVerif.Index.Split
+import NmVerif.Index.Where
 namespace NmVerif.Driver.C04
-open NmVerif NmVerif.Proto
+open NmVerif NmVerif.Proto NmVerif.Index
 
-def handle : Handler := fun op _args =>
+/-- the harness refuses to enumerate a view whose shape has wrapped around (`c04::is_huge`, limit 2^20) and prints
+    the extents as signed 64-bit numbers -/
+def hugeLimit : Nat := 2 ^ 20
+
+def isHuge (s : Shape) : Bool :=
+  (s.foldl (fun (acc : Bool × Nat) e =>
+    if acc.1 then acc else
+    if e > hugeLimit then (true, acc.2) else
+    let n := acc.2 * e
+    if n > hugeLimit then (true, n) else (false, n)) (false, 1)).1
+
+def fmtSigned (s : Shape) : String :=
+  fmtInts (s.map (fun (e : Nat) => if e < 2 ^ 63 then Int.ofNat e else Int.ofNat e - 2 ^ 64))
+
+/-- What the harness prints for an indexing view over `data[k] = k + base`: `ndarray_t::operator()` computes the offset
+    in `size_t` (wraps mod 2^64) and reads `data_.at(offset)`, which throws (→ `oob`) iff `offset ≥ size`;
+    an index outside the shape whose offset stays below `size` is read silently.  `fill` = the view's fill value. -/
+def fmtViewCore (base fill : Int) (pre : String) (v : IxView) : String :=
+  if isHuge v.dst then s!"ok{pre} shape={fmtSigned v.dst} data=huge" else
+  let st := strides v.src
+  let n := prod v.src
+  let offs : List (Option Nat) := (allIdx v.dst).map (fun d => (v.map d).map (fun i => computeOffset i st % 2^64))
+  if offs.any (fun o => match o with | some k => decide (n ≤ k) | none => false) then "oob"
+  else
+    let data : List Int := offs.map (fun o => match o with | some k => (k : Int) + base | none => fill)
+    s!"ok{pre} shape={fmtNats v.dst} data={fmtInts data}"
+
+def fmtViewB (base fill : Int) (v : Option IxView) : String :=
+  match v with
+  | none => "nothing"
+  | some v => fmtViewCore base fill "" v
+
+def fmtView (v : Option IxView) : String := fmtViewB 0 (-1) v
+
+def fmtGen (g : GenView) : String :=
+  if isHuge g.dst then s!"ok shape={fmtSigned g.dst} data=huge" else
+  s!"ok shape={fmtNats g.dst} data={fmtInts ((allIdx g.dst).map g.elem)}"
+
+/-- two operands: left filled `k`, right `k + 1000`; neither flag set ⇒ the C++ (NDEBUG) reads the right operand
+    at a zero-initialised index, i.e. element 1000 -/
+def fmtView2 (v : Option IxView2) : String :=
+  match v with
+  | none => "nothing"
+  | some v =>
+    let offs : List (Option Int) := (allIdx v.dst).map (fun d =>
+      match v.map d with
+      | some (false, i) => let k := computeOffset i (strides v.srcA) % 2^64
+                           if k < prod v.srcA then some (k : Int) else none
+      | some (true, i) => let k := computeOffset i (strides v.srcB) % 2^64
+                          if k < prod v.srcB then some ((k : Int) + 1000) else none
+      | none => if 0 < prod v.srcB then some 1000 else none)
+    if isHuge v.dst then s!"ok shape={fmtSigned v.dst} data=huge" else
+    if offs.any (·.isNone) then "oob"
+    else s!"ok shape={fmtNats v.dst} data={fmtInts (offs.map (·.getD 0))}"
+
+def bcast (shift : Int) (axes : List Int) : List Int := axes.map (fun _ => shift)
+
+def handle : Handler := fun op a =>
   match op with
+  | "repeat" => orBad do
+      let s ← a.nats "shape"
+      match a.get? "repeats" with
+      | some _ =>
+        let r ← a.nat "repeats"
+        let ax ← a.optInt "axis"
+        pure (fmtView (repeatView s r ax))
+      | none =>
+        let rs ← a.nats "rlist"
+        let ax ← a.int "axis"
+        pure (fmtView (repeatListView s rs ax))
+  | "roll" => orBad do
+      let s ← a.nats "shape"
+      match a.get? "axis", a.get? "alist", a.get? "slist" with
+      | some "None", _, _ => do
+        let sh ← a.int "shift"
+        pure (fmtView (rollNoneView s sh))
+      | some _, _, _ => do
+        let sh ← a.int "shift"
+        let ax ← a.int "axis"
+        pure (fmtView (rollView s sh ax))
+      | none, some _, none => do
+        let sh ← a.int "shift"
+        let axes ← a.ints "alist"
+        pure (fmtView (rollAxesView s (bcast sh axes) axes))
+      | none, some _, some _ => do
+        let shs ← a.ints "slist"
+        let axes ← a.ints "alist"
+        pure (fmtView (rollAxesView s shs axes))
+      | _, _, _ => none
+  | "pad" => orBad do
+      let s ← a.nats "shape"
+      let w ← a.nats "widths"
+      pure (fmtView (padView s w))
+  | "take" => orBad do
+      let s ← a.nats "shape"
+      let ind ← a.ints "indices"
+      let ax ← a.optInt "axis"
+      pure (fmtView (takeView s ind ax))
+  | "concatenate" => orBad do
+      let s ← a.nats "shape"
+      let s2 ← a.nats "shape2"
+      let ax ← a.optInt "axis"
+      pure (fmtView2 (concatenateView s s2 ax))
+  | "tile" => orBad do
+      let s ← a.nats "shape"
+      let r ← a.nats "reps"
+      pure (fmtView (tileView s r))
+  | "stack" => orBad do
+      pure (fmtView2 (stackView (← a.nats "shape") (← a.nats "shape2") (← a.int "axis")))
+  | "hstack" => orBad do pure (fmtView2 (hstackView (← a.nats "shape") (← a.nats "shape2")))
+  | "vstack" => orBad do pure (fmtView2 (vstackView (← a.nats "shape") (← a.nats "shape2")))
+  | "dstack" => orBad do pure (fmtView2 (dstackView (← a.nats "shape") (← a.nats "shape2")))
+  | "column_stack" => orBad do pure (fmtView2 (columnStackView (← a.nats "shape") (← a.nats "shape2")))
+  | "split" => orBad do
+      let s ← a.nats "shape"
+      let ax ← a.int "axis"
+      let part ← a.nat "part"
+      let parts ← match a.get? "sections" with
+        | some _ => do pure (splitViews s (some (← a.nat "sections")) [] ax)
+        | none => do pure (splitViews s none (← a.ints "indices") ax)
+      match parts with
+      | none => pure "oob"
+      | some ps =>
+        match ps[part]? with
+        | none => pure s!"ok parts={ps.length} part-out-of-range"
+        | some v => pure (fmtViewCore 0 (-1) s!" parts={ps.length}" v)
+  | "sliding_window" => orBad do
+      let s ← a.nats "shape"
+      match a.get? "window", a.get? "alist" with
+      | some _, _ => do
+        let w ← a.nat "window"
+        let ax ← a.optInt "axis"
+        pure (fmtView (slidingWindowView s [w] (ax.map (fun x => [x])) true))
+      | none, some _ => do
+        pure (fmtView (slidingWindowView s (← a.nats "wlist") (some (← a.ints "alist")) false))
+      | none, none => do
+        pure (fmtView (slidingWindowView s (← a.nats "wlist") none false))
+  | "diagonal" => orBad do
+      pure (fmtView (diagonalView (← a.nats "shape") (← a.int "offset") (← a.int "axis1") (← a.int "axis2")))
+  | "diagflat" => orBad do pure (fmtViewB 1 0 (diagflatView (← a.nats "shape") (← a.int "k")))
+  | "tril" => orBad do pure (fmtViewB 1 0 (trilView (← a.nats "shape") (← a.int "k")))
+  | "triu" => orBad do pure (fmtViewB 1 0 (triuView (← a.nats "shape") (← a.int "k")))
+  | "tri" => orBad do
+      let m ← a.optInt "m"
+      pure (fmtGen (triGen (← a.nat "n") (m.map Int.toNat) (← a.int "k")))
+  | "eye" => orBad do
+      let m ← a.optInt "m"
+      pure (fmtGen (eyeGen (← a.nat "n") (m.map Int.toNat) (← a.int "k")))
+  | "identity" => orBad do pure (fmtGen (identityGen (← a.nat "n")))
+  | "where" => orBad do
+      let c ← a.nats "shape"
+      let x ← a.nats "shape2"
+      let y ← a.nats "shape3"
+      let cond ← a.ints "cond"
+      match whereView c x y with
+      | none => pure "nothing"
+      | some w =>
+        let data : List Int := (allIdx w.dst).map (fun d =>
+          let cv := cond[computeOffset (bcastIdx c d) (strides c)]?.getD 0
+          if cv ≠ 0 then (computeOffset (bcastIdx x d) (strides x) : Int) + 1000
+          else (computeOffset (bcastIdx y d) (strides y) : Int) + 2000)
+        pure s!"ok shape={fmtNats w.dst} data={fmtInts data}"
+  | "compress" => orBad do
+      pure (fmtView (compressView (← a.nats "shape") (← a.ints "cond") (← a.optInt "axis")))
+  | "resize" => orBad do pure (fmtView (resizeView (← a.nats "shape") (← a.nats "to")))
+  | "expand" => orBad do
+      let s ← a.nats "shape"
+      let axes ← match a.get? "alist" with
+        | some _ => a.ints "alist"
+        | none => (a.int "axis").map (fun x => [x])
+      let sps ← match a.get? "slist" with
+        | some _ => a.nats "slist"
+        | none => (a.nat "spacing").map (fun x => axes.map (fun _ => x))
+      pure (fmtView (expandView s axes sps))
   | _ => none
 
 end NmVerif.Driver.C04
